@@ -153,3 +153,178 @@ def exact_int_division(sym):
             pm.int = old
         else:
             del pm.int
+
+
+# --------------------------------------------------------------------------------------------------
+# C20: analyzer side (as the aggregator builds it) and engine side (a real engine run)
+# --------------------------------------------------------------------------------------------------
+def _gen_uod(with_volume, extra_tag_unit=None):
+    """A UOD generated for the check: tags with units of many quantities (all with numeric values), regex-argument
+    commands of every kind the repo offers, optionally a volume totalizer and a column volume."""
+    from openpectus.engine.hardware import HardwareLayerBase
+    from openpectus.lang.exec.uod import UodBuilder
+    from openpectus.lang.exec.tags import Tag
+    from openpectus.lang.exec import regex
+
+    class NullHW(HardwareLayerBase):
+        def read(self, r):
+            return None
+
+        def write(self, value, r):
+            pass
+
+        def connect(self):
+            self._is_connected = True
+
+        def disconnect(self):
+            self._is_connected = False
+
+    def done(cmd, **kvargs):
+        cmd.set_complete()
+
+    def done_noargs(cmd):
+        cmd.set_complete()
+
+    def done_number(cmd, number, number_unit=None):
+        cmd.set_complete()
+
+    def done_option(cmd, option):
+        cmd.set_complete()
+
+    def done_text(cmd, text):
+        cmd.set_complete()
+
+    def done_value(cmd, value):
+        cmd.set_complete()
+
+    b = (UodBuilder().with_instrument("GenUod").with_author("a", "a@example.org").with_filename(__file__)
+         .with_hardware(NullHW()).with_location("loc"))
+    for name, value, unit in [("Flow", 1.0, "L/h"), ("Temp", 20.0, "degC"), ("Cond", 1.0, "mS/cm"), ("Mass", 1.0, "kg"),
+                              ("Pct", 1.0, "%"), ("VolPct", 1.0, "vol%"), ("Abs", 1.0, "AU"), ("Perm", 1.0, "LMH/bar"),
+                              ("Level", 1.0, None), ("State", "Open", None), ("Meter", 1.0, "L"), ("ColVol", 2.0, "L"),
+                              ("Two Words", 1.0, "s")]:
+        b = b.with_tag(Tag(name, value=value, unit=unit))
+    if extra_tag_unit is not None:
+        b = b.with_tag(Tag("T", value=1.0, unit=extra_tag_unit))
+    else:
+        b = b.with_tag(Tag("T", value=1.0, unit=None))
+    b = (b.with_command_regex_arguments("Dose", regex.RegexNumber(units=["mL", "L"]), done_number)
+         .with_command_regex_arguments("Count", regex.RegexNumber(units=None, non_negative=True, int_only=True), done_number)
+         .with_command_regex_arguments("Valve", regex.RegexCategorical(exclusive_options=["Closed"], additive_options=["VA01", "VA02"]), done_option)
+         .with_command_regex_arguments("Note", regex.RegexText(allow_empty=False), done_text)
+         .with_command_regex_arguments("Speed", regex.RegexNumberOptional(units=["%"]), done_number)
+         .with_command_regex_arguments("Set flow rate", regex.RegexNumber(units=["L/h", "L/min"], non_negative=True), done_number)
+         .with_command("Home", exec_fn=done_noargs, arg_parse_fn=None)
+         .with_command("Free", exec_fn=done_value))
+    if with_volume:
+        b = b.with_accumulated_volume(totalizer_tag_name="Meter").with_accumulated_cv(cv_tag_name="ColVol", totalizer_tag_name="Meter")
+    uod = b.build()
+    uod.hwl.connect()
+    return uod
+
+
+def uod_factories():
+    """name -> zero-argument factory of a fresh UOD"""
+    def demo():
+        from openpectus.engine.configuration import demo_uod
+        return demo_uod.create()
+
+    def test():
+        import io
+        import contextlib as _c
+        from openpectus.test.engine.test_engine import create_test_uod
+        with _c.redirect_stdout(io.StringIO()):
+            return create_test_uod()
+
+    return {"demo": demo, "test": test, "gen_novol": lambda: _gen_uod(False), "gen_vol": lambda: _gen_uod(True)}
+
+
+def make_uod(name):
+    if name.startswith("gen_unit:"):
+        return _gen_uod(False, extra_tag_unit=name.split(":", 1)[1])
+    uod = uod_factories()[name]()
+    if not uod.hwl.is_connected:
+        uod.hwl.connect()
+    return uod
+
+
+class Sides:
+    """Engine + the analyzer input built from what that engine publishes (create_lsp_definition +
+    get_command_definitions -> protocol UodDefinition -> JSON -> build_tags / build_commands)."""
+
+    def __init__(self, uod_name):
+        from openpectus.engine.engine import Engine
+        from openpectus.lsp import lsp_analysis
+        import openpectus.protocol.models as Mdl
+        self.uod_name = uod_name
+        self.uod = make_uod(uod_name)
+        self.engine = Engine(self.uod)
+        d = self.uod.create_lsp_definition()
+        d.system_commands = self.engine.get_command_definitions()
+        d = Mdl.UodDefinition.model_validate_json(d.model_dump_json())      # what arrives at the aggregator
+        self.definition = d
+        self.tags = lsp_analysis.build_tags(d)
+        self.commands = lsp_analysis.build_commands(d)
+
+    def close(self):
+        self.engine.cleanup()
+
+    def analyzer_errors(self, pcode):
+        """ERROR items of the editor's analysis of `pcode` (parser configured as lsp_analysis.analyze configures it)."""
+        from openpectus.lang.exec.analyzer import SemanticCheckAnalyzer
+        from openpectus.lang.model.parser import ParserMethod, create_method_parser
+        method = ParserMethod.from_pcode(pcode)
+        program = create_method_parser(method, uod_command_names=[]).parse_method(method)
+        a = SemanticCheckAnalyzer(self.tags, self.commands)
+        try:
+            a.analyze(program)
+        except Exception as e:  # noqa  -- a crashing analysis (C19) is not "analysis reports no errors"
+            return [e]
+        return a.errors
+
+
+def run_on_engine(uod_name, pcode, ticks=12):
+    """Run `pcode` on a fresh real engine: Start, then `ticks` ticks of 0.1 s.  Returns the engine's error-state
+    exception (None when the method did not fail)."""
+    import time
+    from openpectus.engine.engine import Engine
+    from openpectus.engine.models import EngineCommandEnum
+    import openpectus.protocol.models as Mdl
+    uod = make_uod(uod_name)
+    engine = Engine(uod)
+    try:
+        engine.run(skip_timer_start=True)
+        engine.set_method(Mdl.Method.from_pcode(pcode))
+        engine.schedule_execution(EngineCommandEnum.START)
+        t0 = time.time()
+        for k in range(ticks):
+            try:
+                engine.tick(t0 + 0.1 * k, 0.1)
+            except Exception as e:  # noqa  -- tick is not supposed to raise (C13); treat as failure of the run
+                return e
+            if engine.has_error_state():
+                break
+        return engine.get_error_state_exception()
+    finally:
+        try:
+            if engine.interpreter._generator is not None:
+                engine.interpreter._generator.close()
+        except Exception:  # noqa
+            pass
+        engine.cleanup()
+
+
+def failure_kind(exc):
+    """Which of the three failure kinds of C20 an engine error is (None: some other failure, not claimed by C20)."""
+    text = (getattr(exc, "message", "") or "") + " " + str(exc) + " " + repr(getattr(exc, "__cause__", "") or "")
+    low = text.lower()
+    if "invalid instruction" in low or "unknown command" in low or "unknown internal engine command" in low \
+            or "invalid command type" in low or "unknown tag" in low or ("tag name" in low and "not found" in low) \
+            or "is not supported" in low and "interpreter command" in low:
+        return "name"
+    if "invalid argument" in low or "failed to initialize arguments" in low or "invalid arguments" in low:
+        return "argument"
+    if "incompatible units" in low or "non-pint units" in low or "cannot convert" in low or "dimensionality" in low \
+            or "conversion error" in low:
+        return "units"
+    return None
